@@ -450,3 +450,60 @@ fn c09_witness_must_fail() {
     std::mem::forget((m1, m2, a1, a2, loc));
     assert!(!d && false, "reachability witness");
 }
+
+// K5: chunk-span arithmetic of get_opts / get_ranges (source slice, DESIGN.md 2.5) -------------------
+// The statements computing rr_start / rr_end / start_idx / start_offset (get_opts) and span_start /
+// span_end / first_idx (get_ranges) sit inline in async fns; ./check extracts them textually from the
+// current encryption.rs into /verif/slices/enc_span.rs on every run and Kani compiles them here.
+include!("/verif/slices/enc_span.rs");
+
+/// For a valid request 0 <= start < end <= size: the fetched ciphertext span is chunk aligned, covers
+/// the request, stays inside the object, is tight (less than one chunk of slack on either side), and the
+/// decryption stream's (start_idx, start_offset) address the first requested byte.
+fn span_laws(c: u64, max_size: u64) {
+    let (start, end, size): (u64, u64, u64) = (kani::any(), kani::any(), kani::any());
+    kani::assume(size <= max_size && start < end && end <= size);
+    let meta = SliceMeta { size };
+    let (rr_start, rr_end, start_idx, start_offset) = slice_get_opts_span(start..end, c, &meta);
+    assert!(rr_start <= start && end <= rr_end && rr_end <= size, "the fetched span covers the request and stays inside the object");
+    assert!(rr_start % c == 0 && (rr_end % c == 0 || rr_end == size), "only whole chunks are fetched, so every tag is checked over its full chunk");
+    assert!(start - rr_start < c && rr_end - end < c, "no chunk is fetched that the request does not touch");
+    assert!(start_idx as u64 * c == rr_start, "the first chunk index is the chunk the span starts at");
+    assert!((start_offset as u64) < c && rr_start + start_offset as u64 == start, "the stream starts yielding at the first requested byte");
+    assert!(start_offset as u64 + (end - start) <= rr_end - rr_start, "the requested bytes lie inside the decrypted span");
+    // get_ranges computes the same span
+    let (span_start, span_end, first_idx) = slice_get_ranges_span(start, end, c, &meta);
+    assert!(span_start == rr_start && span_end == rr_end && first_idx == start_idx as u64, "get_ranges and get_opts agree on the chunk span");
+    kani::cover!(end % c == 0 && end < size, "request ends on a chunk boundary");
+    kani::cover!(rr_end == size && size % c != 0, "span ends in the short tail chunk");
+    kani::cover!(start_offset > 0 || c == 1, "request starts inside a chunk");
+}
+macro_rules! span {
+    ($name:ident, $c:expr, $max:expr) => {
+        #[kani::proof]
+        #[kani::unwind(2)]
+        fn $name() {
+            span_laws($c, $max);
+        }
+    };
+}
+// @check id=C09 tier=quick cap=600 needs=slice role=chunk_span_arithmetic harness=c09_span_chunk1,c09_span_chunk7,c09_span_chunk16,c09_span_chunk64k,c09_span_chunk256k
+// @fns encryption::EncryptedStore::get_opts (inline span arithmetic, sliced), encryption::EncryptedStore::get_ranges (inline span arithmetic, sliced)
+// @bound one chunk size per harness from {1, 7, 16, 65536, 262144} (constant divisors); object size <= 2^21 (<= 64 for chunk sizes 1/7/16), every valid range 0 <= start < end <= size
+// @assume the sliced let-statements are the ones the async fns execute (extracted textually, anchored on the binding names)
+span!(c09_span_chunk1, 1, 64);
+span!(c09_span_chunk7, 7, 64);
+span!(c09_span_chunk16, 16, 64);
+span!(c09_span_chunk64k, 65536, 1 << 21);
+span!(c09_span_chunk256k, 262144, 1 << 21);
+
+// @check id=C09 tier=quick cap=600 needs=slice role=chunk_span_arithmetic_symbolic_divisor
+// @fns encryption::EncryptedStore::get_opts (sliced), encryption::EncryptedStore::get_ranges (sliced)
+// @bound symbolic chunk size in 1..=16, object size <= 255
+#[kani::proof]
+#[kani::unwind(2)]
+fn c09_span_symbolic_chunk_size() {
+    let c: u64 = kani::any();
+    kani::assume(c >= 1 && c <= 16);
+    span_laws(c, 255);
+}
